@@ -170,6 +170,8 @@ def run(F, rep, tier):
     if not any(v["rule"] == r8 for v in rep.violations):
         rep.ok(r8, "argument-order", "%d calls of Workspace operations, no exchanged arguments" % ncall)
 
+    key_accessor_rule(F, rep)
+
     # deploy
     dep = methods.get(W + "::deploy")
     if dep is None:
@@ -435,3 +437,36 @@ def all_or_nothing_rule(F, rep, index_fields, fields):
             else:
                 rep.ok(rid, key, "every returning path %s none or all of %s" % (word, sorted(idx.values())))
     rep.floor(rid, "public operations that touch an index", nops, 4)
+
+
+def key_accessor_rule(F, rep):
+    """R17.9: the maps of the workspace are keyed by attributes of the stored Definitions. The operation that stores a model (`add`) defines the key vocabulary; every other
+    operation must obtain its keys through the same accessors, otherwise a model is stored under one spelling and looked up / deployed under another.  Label propagation:
+    labels are born at the accessor methods of dmntk_model's Definitions and read at the key argument of the map operations in the workspace crate."""
+    import re
+    import taint
+    rid = rep.rule("R17.9", "every key of a workspace map that is taken from a Definitions object is obtained through an accessor that `add` also uses for its keys")
+    ACC = re.compile(r"^(?:dmntk_model::model::Definitions::|<dmntk_model::model::Definitions as [\w:]+>::)(\w+)$")
+    MAPOP = re.compile(r"^std::collections::hash::map::HashMap::<[^>]*>::(insert|get|get_mut|remove|contains_key|entry|remove_entry)$")
+    tt = taint.Taint(F, is_source=lambda p: ("acc:" + ACC.match(p).group(1)) if ACC.match(p) else None,
+                     is_sink=lambda p: ("map-key", [1]) if MAPOP.match(p) else None)
+    for n, b in sorted(F.bodies.items()):
+        if n.startswith(W + "::") and b.get("kind") != "closure":
+            tt.analyse(n)
+    per_op = {}
+    for (sname, fn, line), a in tt.site_args.items():
+        if not fn.startswith(W + "::"):
+            continue
+        op = fn[len(W) + 2:].split("::")[0]
+        labs = {l[4:] for l in a.get(1, set()) if l.startswith("acc:")}
+        per_op.setdefault(op, set()).update(labs)
+    vocab = per_op.get("add", set())
+    if not vocab:
+        rep.undecided(rid, "key-accessors", "no key of a map operation in Workspace::add derives from a Definitions accessor")
+        return
+    bad = {op: sorted(ls - vocab) for op, ls in per_op.items() if ls - vocab}
+    if bad:
+        rep.violation(rid, "key-accessors", "; ".join("Workspace::%s keys a map with Definitions::%s(), which `add` never uses for a key (add uses %s)" % (op, "() / ".join(ls), sorted(vocab))
+                                                      for op, ls in sorted(bad.items())), FILE)
+    else:
+        rep.ok(rid, "key-accessors", "keys taken from Definitions use %s in %s" % (sorted(vocab), sorted(op for op, ls in per_op.items() if ls)))
